@@ -66,6 +66,29 @@ CLAIMS.update({
             'ciphertext; key-part combination = XOR (permutation invariant, duplicates cancel, 32 hex digits); KCV and encrypted zone key as published. Correspondence with cipher stubs driving 0..4 substituted digits.',
             TB + 'DES/3DES external (Section variable E, length preserving)', 'Coq proof (list/xor algebra, no enumeration of ciphertexts) + differential correspondence + reference DES', '6/C14'),
 })
+CLAIMS.update({
+    'C01': ('Round-trip theorem at full strength: every well-formed configuration (wf_cfgb), every codec table of 256 entries, binary and hex bitmap, every well-formed message (wf_msgb: '
+            'any subset of elements, all admissible lengths, ints, dates in the window, ICC TLV, PDS keys packed into carriers, carriers given directly, PAN / PAN-PREFIX processors): '
+            'dumps succeeds, loads of the bytes succeeds, every original key returns its (masked / prefixed) value and every other key is a documented derived one. Domain '
+            'hypotheses re-proved for the packaged configuration and all 12 generated codec tables on every run. Correspondence + round-trip oracle on generated messages, each checked to lie in wf_msgb.',
+            TB + 'decimal typed fields, non-canonical date strings and DE43_* regex entries are outside the model (Unmodelled / oracle)',
+            'Coq proof (field self-delimitation, induction over the bit range, PDS packing/recovery lemmas, strptime/strftime inverse) + differential correspondence', '6/C01'),
+    'C02': ('Encode direction: whenever the model encoder returns, the bytes decompose as MTI ++ bitmap ++ body with the bitmap characterised bit by bit (independent bit_set), 16 bytes or 32 lowercase hex '
+            'characters, and the body equal to the declarative element-by-element layout (elem_wire / wire_body; for str numerals on int/date elements through their native value); over-length variable '
+            'values are refused with the library error. Decode direction = C08_sound + C01. The implementation is compared byte-for-byte with an independent Python reference encoder and key-for-key with an independent reading.',
+            TB + 'integers in-width and non-negative', 'Coq proof (loop = declarative layout by induction over the bit list) + differential correspondence + independent reference codec', '6/C02'),
+    'C06': ('Theorem: any list of well-formed messages that fit a record, VBS or 1014, any well-formed configuration and codec: the written file reads back (End) as decoded records that agree with the messages (C01 clauses); '
+            'generic isolation lemma for interleaved instances. Correspondence on files of 1..300 records incl. frames ending around block boundaries; interleaving runs vs solo runs incl. class attributes.',
+            TB + 'isolation of the CODE is established by the interleaving runs (the model has no shared component by construction); method-call granularity, single thread',
+            'Coq proof (composition of C01, C03, reader refinement) + differential correspondence + interleaving enumeration', '6/C06'),
+    'C10': ('Theorems for any number of good records before the bad one, blocked or unblocked, whatever follows: message-level fault -> ErrData k (frame of record k); truncated record -> ErrData k (prefix ++ bytes read); '
+            'oversize length -> ErrData k (prefix). Fault enumeration over positions, 8 fault kinds, blocking, encodings and three consumption styles, incl. the printed operator message.',
+            TB + 'print_exception_details output is observed by the run only', 'Coq proof (pure parser refinement of the reader, induction over the good records) + fault enumeration', '6/C10'),
+    'C17': ('Theorem for every file the writer model produces from >= 1 well-formed message under the packaged configuration: inspection = Valid, encoding family by digit bytes (0x30.. -> latin1, 0xF0.. -> cp037; '
+            'family membership of the 12 generated codecs re-proved each run), blocked => reported blocked (any block count), unblocked => reported unblocked unless bytes 1012-1013 are the trailer; invalid classes => Invalid with reason code. '
+            'Correspondence on writer files of 1..9 blocks, boundary invalid inputs and arbitrary samples.',
+            TB + 'reason texts are not compared, only that a reason is present', 'Coq proof (shape of the first 24 bytes, lay/trailer positions, generated digit tables) + differential correspondence', '6/C17'),
+})
 PENDING = 'not yet claimed: model and theorems for this property are still being built (DESIGN.md section 11); no check registered yet'
 
 
